@@ -476,7 +476,22 @@ Section StepCovariance.
   Variables (Fx G : V -> V) (Ginv : V -> F -> V) (Fx' G' : V -> V) (Ginv' : V -> F -> V).
   Hypothesis HF : forall u, Fx' (Sc u) = Tn (Fx u).
   Hypothesis HG : forall u, G' (Sc u) = Tn (G u).
-  Hypothesis HGinv : forall u eta, Ginv' (Sc u) (tau * eta) = Sc (Ginv u eta).
+  (** [ok eta]: the implicit solves with step size [eta] are well defined (the
+      matrices are invertible); only the step sizes an integrator actually uses
+      are required to be [ok]. *)
+  Variable ok : F -> Prop.
+  Hypothesis HGinv : forall u eta, ok eta -> Ginv' (Sc u) (tau * eta) = Sc (Ginv u eta).
+
+  Fixpoint ls_ok (dt : F) (al : list F) : Prop :=
+    match al with
+    | a0 :: ((a1 :: _) as al') => ok (half * dt * (a1 - a0)) /\ ls_ok dt al'
+    | _ => True
+    end.
+  Fixpoint imex_ok (dt : F) (i : nat) (rim : list (list F)) : Prop :=
+    match rim with
+    | ri :: rim' => ok (dt * nth i ri 0) /\ imex_ok dt (Datatypes.S i) rim'
+    | [] => True
+    end.
 
   Lemma S_plus u w : Sc u +v L w = Sc (u +v w).
   Proof.
@@ -500,61 +515,84 @@ Section StepCovariance.
   Qed.
   Lemma S_axpy' u a a' t : a' = tau * a -> Sc u +v a' *v Tn t = Sc (u +v a *v t).
   Proof. intros ->. apply S_axpy. Qed.
-  Lemma Ginv_cov u eta eta' : eta' = tau * eta -> Ginv' (Sc u) eta' = Sc (Ginv u eta).
-  Proof. intros ->. apply HGinv. Qed.
+  Lemma Ginv_cov u eta eta' : ok eta -> eta' = tau * eta -> Ginv' (Sc u) eta' = Sc (Ginv u eta).
+  Proof. intros Hok ->. now apply HGinv. Qed.
+
+  (** The resolvent hypothesis follows from the one on the implicit terms:
+      if [Ginv . eta] is a right inverse of [1 - eta G] (modulo the entries [L]
+      looks at) and [Ginv' . (tau eta)] a left inverse of [1 - tau eta G'] on
+      rescaled states, then the resolvents are related by the change of scale. *)
+  Lemma resolvent_covariant_from_terms eta :
+    (forall y, L (Ginv y eta +v (- eta) *v G (Ginv y eta)) = L y) ->
+    (forall u, Ginv' (Sc u +v (- (tau * eta)) *v G' (Sc u)) (tau * eta) = Sc u) ->
+    forall y, Ginv' (Sc y) (tau * eta) = Sc (Ginv y eta).
+  Proof.
+    intros HR HL y.
+    assert (E : Sc y = Sc (Ginv y eta) +v (- (tau * eta)) *v G' (Sc (Ginv y eta))).
+    { rewrite HG. rewrite (S_axpy' (Ginv y eta) (- eta) (- (tau * eta))) by ring.
+      unfold Sc. now rewrite HR. }
+    rewrite E at 1. apply HL.
+  Qed.
 
   Theorem euler_step_covariant dt u0 :
+    ok dt ->
     euler_step Fx' Ginv' (tau * dt) (Sc u0) = Sc (euler_step Fx Ginv dt u0).
   Proof.
-    unfold euler_step. cbv zeta. rewrite HF, S_axpy. apply HGinv.
+    intros Hok. unfold euler_step. cbv zeta. rewrite HF, S_axpy. now apply HGinv.
   Qed.
 
   Theorem backward_euler_step_covariant dt u0 :
+    ok dt ->
     backward_euler_step Ginv' (tau * dt) (Sc u0) = Sc (backward_euler_step Ginv dt u0).
-  Proof. unfold backward_euler_step. apply HGinv. Qed.
+  Proof. intros Hok. unfold backward_euler_step. now apply HGinv. Qed.
 
   Theorem cn_rk2_step_covariant dt u0 :
+    ok (half * dt) ->
     cn_rk2_step Fx' G' Ginv' (tau * dt) (Sc u0) = Sc (cn_rk2_step Fx G Ginv dt u0).
   Proof.
-    unfold cn_rk2_step. cbv zeta.
+    intros Hok. unfold cn_rk2_step. cbv zeta.
     rewrite HF, HG.
     rewrite (S_axpy' u0 (half * dt) (half * (tau * dt)) (G u0)) by ring.
     rewrite S_axpy.
-    rewrite (Ginv_cov _ (half * dt)) by ring.
+    rewrite (Ginv_cov _ (half * dt)) by (assumption || ring).
     rewrite HF, Tn_add, Tn_scal, S_axpy.
-    apply Ginv_cov. ring.
+    apply Ginv_cov; [assumption | ring].
   Qed.
 
   Theorem leapfrog_covariant dt alpha p q :
+    ok (two * dt * alpha) ->
     leapfrog_step Fx' G' Ginv' (tau * dt) alpha (Sc p, Sc q)
     = (Sc (fst (leapfrog_step Fx G Ginv dt alpha (p, q))), Sc (snd (leapfrog_step Fx G Ginv dt alpha (p, q)))).
   Proof.
-    unfold leapfrog_step. cbn [fst snd]. f_equal.
+    intros Hok. unfold leapfrog_step. cbn [fst snd]. f_equal.
     rewrite HF, HG, Tn_scal, Tn_add.
     rewrite (S_axpy' p (two * dt) (two * (tau * dt))) by ring.
-    apply Ginv_cov. ring.
+    apply Ginv_cov; [assumption | ring].
   Qed.
 
   (** low-storage Runge-Kutta + Crank-Nicolson (crank_nicolson_rk3 / rk4): all lists, all lengths *)
   Theorem ls_loop_covariant dt al be ga h u :
+    ls_ok dt al ->
     ls_loop Fx' G' Ginv' (tau * dt) al be ga (Tn h) (Sc u) = Sc (ls_loop Fx G Ginv dt al be ga h u).
   Proof.
-    revert be ga h u. induction al as [|a0 al IH]; intros be ga h u.
+    revert be ga h u. induction al as [|a0 al IH]; intros be ga h u Hok.
     - destruct be, ga; reflexivity.
     - destruct be as [|b be]; [destruct ga; reflexivity|].
       destruct ga as [|g ga]; [reflexivity|].
       destruct al as [|a1 al]; [reflexivity|].
+      destruct Hok as [Hok1 Hok2].
       cbn [ls_loop].
       rewrite HF, HG, Tn_scal, Tn_add.
       rewrite (S_axpy' u (g * dt) (g * (tau * dt))) by ring.
       rewrite (S_axpy' _ (half * dt * (a1 - a0)) (half * (tau * dt) * (a1 - a0))) by ring.
-      rewrite (Ginv_cov _ (half * dt * (a1 - a0))) by ring.
-      apply IH.
+      rewrite (Ginv_cov _ (half * dt * (a1 - a0))) by (assumption || ring).
+      apply IH. exact Hok2.
   Qed.
 
   Theorem ls_step_covariant dt al be ga u :
+    ls_ok dt al ->
     ls_step Fx' G' Ginv' (tau * dt) al be ga (Sc u) = Sc (ls_step Fx G Ginv dt al be ga u).
-  Proof. unfold ls_step. rewrite <- ls_loop_covariant. now rewrite Tn_zero. Qed.
+  Proof. intros Hok. unfold ls_step. rewrite <- ls_loop_covariant by exact Hok. now rewrite Tn_zero. Qed.
 
   (** general IMEX Runge-Kutta (imex_rk_sil3 and any other tableau) *)
   Definition oT (x : option V) : option V := option_map Tn x.
@@ -575,17 +613,18 @@ Section StepCovariance.
   Proof. rewrite <- wsum_skip_covariant. now rewrite Tn_zero. Qed.
 
   Lemma imex_stages_covariant dt y0 b_ex b_im i rex rim fs gs :
+    imex_ok dt i rim ->
     imex_stages Fx' G' Ginv' (tau * dt) (Sc y0) b_ex b_im i rex rim (map oT fs) (map oT gs)
     = option_map (fun p => (map oT (fst p), map oT (snd p)))
                  (imex_stages Fx G Ginv dt y0 b_ex b_im i rex rim fs gs).
   Proof.
-    revert i rim fs gs. induction rex as [|re rex IH]; intros i rim fs gs; cbn [imex_stages]; [reflexivity|].
-    destruct rim as [|ri rim]; [reflexivity|].
+    revert i rim fs gs. induction rex as [|re rex IH]; intros i rim fs gs Hok; cbn [imex_stages]; [reflexivity|].
+    destruct rim as [|ri rim]; [reflexivity|]. destruct Hok as [Hok1 Hok2].
     rewrite !wsum_skip_covariant0.
     destruct (wsum_skip re fs vzero) as [ex|]; cbn [option_map]; [|reflexivity].
     destruct (wsum_skip ri gs vzero) as [im|]; cbn [option_map]; [|reflexivity].
     rewrite !S_axpy.
-    rewrite (Ginv_cov _ (dt * nth i ri 0)) by ring.
+    rewrite (Ginv_cov _ (dt * nth i ri 0)) by (assumption || ring).
     rewrite HF, HG.
     replace (map oT fs ++ [if needed i rex b_ex then Some (Tn (Fx (Ginv (y0 +v dt *v ex +v dt *v im) (dt * nth i ri 0)))) else None])
       with (map oT (fs ++ [if needed i rex b_ex then Some (Fx (Ginv (y0 +v dt *v ex +v dt *v im) (dt * nth i ri 0))) else None])).
@@ -593,15 +632,16 @@ Section StepCovariance.
     replace (map oT gs ++ [if needed i rim b_im then Some (Tn (G (Ginv (y0 +v dt *v ex +v dt *v im) (dt * nth i ri 0)))) else None])
       with (map oT (gs ++ [if needed i rim b_im then Some (G (Ginv (y0 +v dt *v ex +v dt *v im) (dt * nth i ri 0))) else None])).
     2:{ rewrite map_app. cbn [map]. destruct (needed i rim b_im); reflexivity. }
-    apply IH.
+    apply IH. exact Hok2.
   Qed.
 
   Theorem imex_step_covariant dt a_ex a_im b_ex b_im y0 :
+    imex_ok dt 1 a_im ->
     imex_step Fx' G' Ginv' (tau * dt) a_ex a_im b_ex b_im (Sc y0)
     = option_map Sc (imex_step Fx G Ginv dt a_ex a_im b_ex b_im y0).
   Proof.
-    unfold imex_step.
-    pose proof (imex_stages_covariant dt y0 b_ex b_im 1 a_ex a_im [Some (Fx y0)] [Some (G y0)]) as H.
+    intros Hok. unfold imex_step.
+    pose proof (imex_stages_covariant dt y0 b_ex b_im 1 a_ex a_im [Some (Fx y0)] [Some (G y0)] Hok) as H.
     cbn [map oT option_map] in H. rewrite HF, HG. rewrite H. clear H.
     destruct (imex_stages Fx G Ginv dt y0 b_ex b_im 1 a_ex a_im [Some (Fx y0)] [Some (G y0)]) as [[fs gs]|];
       cbn [option_map fst snd]; [|reflexivity].
@@ -658,6 +698,7 @@ Section NodalTerms.
   Notation scale_cfg := (scale_cfg kT kR).
 
   Variable c : @PEcfg F.
+  Notation scale_cfg_c := (Scaling.scale_cfg kT kR c).
 
   Lemma u_dot_grad_homogeneous x k : u_dot_grad (scale_ncol x) k = kr * u_dot_grad x k.
   Proof. unfold u_dot_grad, scale_ncol, scol; cbn. rewrite <- H_rate. ring. Qed.
@@ -771,4 +812,287 @@ Section NodalTerms.
       + unfold rt_dry, scale_ncol, scale_cfg, scol; cbn [n_u n_v n_vort n_div n_temp n_gx n_gy n_sec2 n_f cR].
         rewrite PG. ring.
   Qed.
+
+  (** *** general form of the momentum term: any [rt] of dimension L^2 T^-2 *)
+  Lemma combined_uv_scal va x (rt rt' : nat -> F) k :
+    (forall j, rt' j = kR * kT * rt j) ->
+    combined_u scale_cfg_c va (scale_ncol x) rt' k = ku * kr * combined_u c va x rt k /\
+    combined_v scale_cfg_c va (scale_ncol x) rt' k = ku * kr * combined_v c va x rt k.
+  Proof.
+    intros Hrt.
+    assert (VT : forall (y : nat -> F), vertical_tendency (scale_cfg c) (sigma_dot_full (scale_cfg c) (scale_ncol x)) (scol ku y) k
+                 = kr * ku * vertical_tendency c (sigma_dot_full c x) y k).
+    { intros y. apply vertical_tendency_scal; [intros r; apply sigma_dot_full_homogeneous | intros r; reflexivity]. }
+    assert (PG : forall gr : F, kR * kT * rt k * (kg * gr) = ku * kr * (rt k * gr)).
+    { intros gr. rewrite <- H_accel. ring. }
+    split; unfold combined_u, combined_v; cbv zeta; rewrite Hrt.
+    - destruct va.
+      + change (n_u (scale_ncol x)) with (scol ku (n_u x)). rewrite VT.
+        unfold Scaling.scale_ncol, scol; cbn [n_u n_v n_vort n_div n_temp n_gx n_gy n_sec2 n_f].
+        rewrite PG. ring.
+      + unfold Scaling.scale_ncol, scol; cbn [n_u n_v n_vort n_div n_temp n_gx n_gy n_sec2 n_f].
+        rewrite PG. ring.
+    - destruct va.
+      + change (n_v (scale_ncol x)) with (scol ku (n_v x)). rewrite VT.
+        unfold Scaling.scale_ncol, scol; cbn [n_u n_v n_vort n_div n_temp n_gx n_gy n_sec2 n_f].
+        rewrite PG. ring.
+      + unfold Scaling.scale_ncol, scol; cbn [n_u n_v n_vort n_div n_temp n_gx n_gy n_sec2 n_f].
+        rewrite PG. ring.
+  Qed.
+
+  (** *** horizontal advection pieces and the total nodal right-hand sides *)
+  Lemma hsa_homogeneous a x (s : nat -> F) k :
+    hsa_nodal (scale_ncol x) (scol a s) k = a * kr * hsa_nodal x s k /\
+    hsa_mu (scale_ncol x) (scol a s) k = ku * a * hsa_mu x s k /\
+    hsa_mv (scale_ncol x) (scol a s) k = ku * a * hsa_mv x s k.
+  Proof. unfold hsa_nodal, hsa_mu, hsa_mv, Scaling.scale_ncol, scol; cbn. repeat split; ring. Qed.
+
+  Lemma kinetic_homogeneous x k : kinetic (scale_ncol x) k = ku * ku * kinetic x k.
+  Proof. unfold kinetic, Scaling.scale_ncol, scol; cbn. rewrite !fdiv_mul. ring. Qed.
+
+  Lemma sigma_dot_explicit_homogeneous x r :
+    sigma_dot_explicit scale_cfg_c (scale_ncol x) r = kr * sigma_dot_explicit c x r.
+  Proof. unfold sigma_dot_explicit. apply sigma_dot_scal. intros k. unfold g_explicit. apply u_dot_grad_homogeneous. Qed.
+
+  (** the branch [np.unique(T_ref).size > 1] does not depend on the temperature scale *)
+  Hypothesis feqb_iff : forall a b : F, feqb a b = true <-> a = b.
+  Hypothesis kT_nz : kT <> 0.
+
+  Lemma feqb_scal a b : feqb (kT * a) (kT * b) = feqb a b.
+  Proof.
+    destruct (feqb a b) eqn:E.
+    - apply feqb_iff in E. subst. now apply feqb_iff.
+    - destruct (feqb (kT * a) (kT * b)) eqn:E'; [|reflexivity].
+      apply feqb_iff in E'. assert (a = b).
+      { replace a with (kT * a / kT) by (field; exact kT_nz). rewrite E'. field. exact kT_nz. }
+      subst. assert (X : feqb b b = true) by now apply feqb_iff. congruence.
+  Qed.
+
+  Theorem tref_nonuniform_scale_invariant : tref_nonuniform scale_cfg_c = tref_nonuniform c.
+  Proof.
+    unfold tref_nonuniform. cbn [Scaling.scale_cfg cK cTref]. unfold scol.
+    induction (seq 0 (cK c)) as [|k l IH]; cbn [existsb]; [reflexivity|].
+    now rewrite feqb_scal, IH.
+  Qed.
+
+  Theorem temp_vertical_tendency_homogeneous va x n :
+    temp_vertical_tendency scale_cfg_c va (scale_ncol x) n = kT * kr * temp_vertical_tendency c va x n.
+  Proof.
+    unfold temp_vertical_tendency. cbv zeta. rewrite tref_nonuniform_scale_invariant.
+    assert (A : vertical_tendency scale_cfg_c (sigma_dot_full scale_cfg_c (scale_ncol x)) (n_temp (scale_ncol x)) n
+                = kr * kT * vertical_tendency c (sigma_dot_full c x) (n_temp x) n).
+    { apply vertical_tendency_scal; [intros r; apply sigma_dot_full_homogeneous | intros r; reflexivity]. }
+    assert (B : vertical_tendency scale_cfg_c (sigma_dot_explicit scale_cfg_c (scale_ncol x)) (cTref scale_cfg_c) n
+                = kr * kT * vertical_tendency c (sigma_dot_explicit c x) (cTref c) n).
+    { apply vertical_tendency_scal; [intros r; apply sigma_dot_explicit_homogeneous | intros r; reflexivity]. }
+    destruct va, (tref_nonuniform c); rewrite ?A, ?B; ring.
+  Qed.
+
+  (** full nodal right-hand side of the temperature equation (dry), Theta / T *)
+  Theorem temp_nodal_total_homogeneous va x n :
+    temp_nodal_total scale_cfg_c va (scale_ncol x) n = kT * kr * temp_nodal_total c va x n.
+  Proof.
+    unfold temp_nodal_total.
+    change (n_temp (scale_ncol x)) with (scol kT (n_temp x)).
+    rewrite (proj1 (hsa_homogeneous kT x (n_temp x) n)).
+    change (scol kT (n_temp x)) with (n_temp (scale_ncol x)).
+    rewrite temp_vertical_tendency_homogeneous, temp_adiabatic_homogeneous. ring.
+  Qed.
+
+  (** tracers (dimension [a], e.g. dimensionless specific humidity): a / T *)
+  Theorem tracer_nodal_total_homogeneous a va x (s : nat -> F) n :
+    tracer_nodal_total scale_cfg_c va (scale_ncol x) (scol a s) n = a * kr * tracer_nodal_total c va x s n.
+  Proof.
+    unfold tracer_nodal_total. rewrite (proj1 (hsa_homogeneous a x s n)).
+    destruct va.
+    - rewrite (vertical_tendency_scal kr a (sigma_dot_full c x) _ s _ n)
+        by (intros r; first [apply sigma_dot_full_homogeneous | reflexivity]). ring.
+    - ring.
+  Qed.
+
+  (** dimensionless tracers (specific humidity, cloud water, cloud ice): 1 / T *)
+  Theorem tracer_nodal_total_dimensionless va x (s : nat -> F) n :
+    tracer_nodal_total scale_cfg_c va (scale_ncol x) s n = kr * tracer_nodal_total c va x s n.
+  Proof.
+    unfold tracer_nodal_total.
+    assert (A : hsa_nodal (scale_ncol x) s n = kr * hsa_nodal x s n).
+    { unfold hsa_nodal, Scaling.scale_ncol, scol; cbn. ring. }
+    rewrite A. destruct va.
+    - rewrite (vertical_tendency_scal kr 1 (sigma_dot_full c x) _ s s n)
+        by (intros r; first [apply sigma_dot_full_homogeneous | ring]). ring.
+    - ring.
+  Qed.
+
+  (** *** moist classes: R_vapor and Cp_vapor scale like R; q, cloud water and ice are dimensionless *)
+  Hypothesis kR_nz : kR <> 0.
+  Hypothesis R_nz : cR c <> 0.
+  Variable m : @Moist F.
+  Notation scale_moist_m := (scale_moist kR m).
+
+  Lemma gas_ratio_invariant : mRv scale_moist_m / cR scale_cfg_c = mRv m / cR c.
+  Proof. cbn [scale_moist Scaling.scale_cfg mRv cR]. field. split; assumption. Qed.
+
+  Lemma heat_ratio_invariant :
+    ckappa c <> 0 ->
+    mCpv scale_moist_m / (cR scale_cfg_c / ckappa scale_cfg_c) = mCpv m / (cR c / ckappa c).
+  Proof. intros Hk. cbn [scale_moist Scaling.scale_cfg mCpv cR ckappa]. field. repeat split; assumption. Qed.
+
+  Lemma moisture_contribution_invariant q k :
+    moisture_contribution scale_cfg_c scale_moist_m q k = moisture_contribution c m q k.
+  Proof. unfold moisture_contribution. now rewrite gas_ratio_invariant. Qed.
+
+  Theorem rt_homogeneous x q qc qi k :
+    rt_dry scale_cfg_c (scale_ncol x) k = kR * kT * rt_dry c x k /\
+    rt_moist scale_cfg_c scale_moist_m (scale_ncol x) q k = kR * kT * rt_moist c m x q k /\
+    rt_cloud scale_cfg_c scale_moist_m (scale_ncol x) q qc qi k = kR * kT * rt_cloud c m x q qc qi k.
+  Proof.
+    unfold rt_dry, rt_moist, rt_cloud. rewrite !moisture_contribution_invariant.
+    unfold Scaling.scale_ncol, Scaling.scale_cfg, scol; cbn [n_temp cR]. repeat split; ring.
+  Qed.
+
+  (** momentum term of the moist and cloud classes, L / T^2 *)
+  Theorem combined_uv_moist_homogeneous va x q qc qi k :
+    (combined_u scale_cfg_c va (scale_ncol x) (rt_moist scale_cfg_c scale_moist_m (scale_ncol x) q) k
+       = ku * kr * combined_u c va x (rt_moist c m x q) k /\
+     combined_v scale_cfg_c va (scale_ncol x) (rt_moist scale_cfg_c scale_moist_m (scale_ncol x) q) k
+       = ku * kr * combined_v c va x (rt_moist c m x q) k) /\
+    (combined_u scale_cfg_c va (scale_ncol x) (rt_cloud scale_cfg_c scale_moist_m (scale_ncol x) q qc qi) k
+       = ku * kr * combined_u c va x (rt_cloud c m x q qc qi) k /\
+     combined_v scale_cfg_c va (scale_ncol x) (rt_cloud scale_cfg_c scale_moist_m (scale_ncol x) q qc qi) k
+       = ku * kr * combined_v c va x (rt_cloud c m x q qc qi) k).
+  Proof.
+    split; apply combined_uv_scal; intros j.
+    - apply (proj1 (proj2 (rt_homogeneous x q qc qi j))).
+    - apply (proj2 (proj2 (rt_homogeneous x q qc qi j))).
+  Qed.
+
+  (** adiabatic temperature term of the moist classes, Theta / T *)
+  Theorem temp_adiabatic_moist_homogeneous x q n :
+    ckappa c <> 0 ->
+    temp_adiabatic_moist scale_cfg_c scale_moist_m (scale_ncol x) q n
+      = kT * kr * temp_adiabatic_moist c m x q n.
+  Proof.
+    intros Hk. unfold temp_adiabatic_moist. cbv zeta.
+    rewrite gas_ratio_invariant, (heat_ratio_invariant Hk).
+    rewrite (t_omega_scal kr (cTref c) _ (g_explicit x) _ (u_dot_grad x)).
+    2:{ intros k. reflexivity. }
+    2,3: intros k; unfold g_explicit; apply u_dot_grad_homogeneous.
+    match goal with |- context [t_omega_over_sigma_sp scale_cfg_c ?Tf' _ _ n] =>
+      rewrite (t_omega_scal kr
+                 (fun k => n_temp x k * ((1 + (mRv m / cR c - 1) * q k) / (1 + (mCpv m / (cR c / ckappa c) - 1) * q k))
+                           + cTref c k * (((mRv m / cR c - mCpv m / (cR c / ckappa c)) * q k) / (1 + (mCpv m / (cR c / ckappa c) - 1) * q k)))
+                 Tf' (g_full_adiabatic x) _ (u_dot_grad x)) end.
+    2:{ intros k. unfold Scaling.scale_ncol, Scaling.scale_cfg, scol; cbn [n_temp cTref]. ring. }
+    2:{ intros k. unfold g_full_adiabatic. rewrite u_dot_grad_homogeneous. unfold Scaling.scale_ncol, scol; cbn. ring. }
+    2:{ intros k. apply u_dot_grad_homogeneous. }
+    cbn [Scaling.scale_cfg ckappa]. ring.
+  Qed.
+
+  Theorem temp_nodal_total_moist_homogeneous va x q n :
+    ckappa c <> 0 ->
+    temp_nodal_total_moist scale_cfg_c va scale_moist_m (scale_ncol x) q n
+      = kT * kr * temp_nodal_total_moist c va m x q n.
+  Proof.
+    intros Hk. unfold temp_nodal_total_moist.
+    change (n_temp (scale_ncol x)) with (scol kT (n_temp x)).
+    rewrite (proj1 (hsa_homogeneous kT x (n_temp x) n)).
+    change (scol kT (n_temp x)) with (n_temp (scale_ncol x)).
+    rewrite temp_vertical_tendency_homogeneous, (temp_adiabatic_moist_homogeneous x q n Hk). ring.
+  Qed.
+
+  (** explicit humidity corrections of the divergence and vorticity equations:
+      grad q and grad ln ps in 1/L, laplacian(ln ps) in 1/L^2; results in 1/T^2
+      (nodal terms) and L^2/T^2 (geopotential of the virtual-temperature excess) *)
+  Theorem humidity_terms_homogeneous sparse x (q gqx gqy : nat -> F) lap k :
+    (k < cK c)%nat ->
+    humidity_div_nodal scale_cfg_c scale_moist_m (scale_ncol x) q (scol kg gqx) (scol kg gqy) (kg * kg * lap) k
+      = kT * kR * (kg * kg) * humidity_div_nodal c m x q gqx gqy lap k /\
+    humidity_curl_nodal scale_cfg_c scale_moist_m (scale_ncol x) (scol kg gqx) (scol kg gqy) k
+      = kT * kR * (kg * kg) * humidity_curl_nodal c m x gqx gqy k /\
+    humidity_geo_nodal scale_cfg_c sparse scale_moist_m (scale_ncol x) q k
+      = kR * kT * humidity_geo_nodal c sparse m x q k.
+  Proof.
+    intros Hk. split; [|split].
+    - unfold humidity_div_nodal, Scaling.scale_ncol, Scaling.scale_cfg, scale_moist, scol;
+        cbn [n_gx n_gy n_sec2 cTref cR mRv]. ring.
+    - unfold humidity_curl_nodal, Scaling.scale_ncol, Scaling.scale_cfg, scale_moist, scol;
+        cbn [n_gx n_gy n_sec2 cTref cR mRv]. ring.
+    - unfold humidity_geo_nodal, geo_diff. cbn [Scaling.scale_cfg cK cR cls].
+      assert (E : forall j, humidity_temperature_diff scale_cfg_c scale_moist_m (scale_ncol x) q j
+                            = scol kT (humidity_temperature_diff c m x q) j).
+      { intros j. unfold humidity_temperature_diff. rewrite gas_ratio_invariant.
+        unfold Scaling.scale_ncol, Scaling.scale_cfg, scol; cbn [n_temp cTref]. ring. }
+      destruct sparse.
+      + rewrite !(geo_sparse_eq_dense _ _ _ _ k Hk).
+        rewrite <- geo_diff_dense_homogeneous. unfold geo_diff_dense. apply sumn_ext. intros j _. now rewrite E.
+      + rewrite <- geo_diff_dense_homogeneous. unfold geo_diff_dense. apply sumn_ext. intros j _. now rewrite E.
+  Qed.
 End NodalTerms.
+
+(** ** Held-Suarez forcing (Model/Forcings.v): rates in 1/T, temperatures in
+    Theta, sigma_b / sigma / cos / sin / (p/p0)^kappa / log(p/p0) dimensionless.
+    The maximum with minT needs an ordered field and a POSITIVE temperature
+    scale; p/p0 itself is scale-invariant (the transcendental functions are
+    applied to an invariant argument, see also [p_over_p0_invariant]). *)
+From Dino Require Import Base.Ord Model.Forcings.
+
+Section HeldSuarezCov.
+  Context {F : Type} {o : Ops F} {Oc : OrdFieldC o}.
+  Add Field FFsc6 : (field_c : FieldTh o).
+  Variables (kp kr kT ku : F).
+  Variable P : HSParams F.
+  Notation P' := (scale_hs kp kr kT P).
+
+  Lemma fleb_scal_pos k a b : flt 0 k -> fleb (k * a) (k * b) = fleb a b.
+  Proof.
+    intros Hk. destruct (fleb a b) eqn:E.
+    - change (fle (k * a) (k * b)). apply fle_mul_l; [apply flt_le; exact Hk | exact E].
+    - change (flt (k * b) (k * a)). apply (proj2 (flt_sub (k * b) (k * a))).
+      replace (k * a - k * b) with (k * (a - b)) by ring.
+      apply fmul_pos_pos; [exact Hk|]. apply (proj1 (flt_sub b a)). exact E.
+  Qed.
+
+  Lemma fmax_scal_pos k a b : flt 0 k -> fmax (k * a) (k * b) = k * fmax a b.
+  Proof. intros Hk. unfold fmax. rewrite (fleb_scal_pos k a b Hk). destruct (fleb a b); reflexivity. Qed.
+
+  Theorem hs_rates_homogeneous sigma cl :
+    hs_kv P' sigma = kr * hs_kv P sigma /\ hs_kt P' sigma cl = kr * hs_kt P sigma cl.
+  Proof. unfold hs_kv, hs_kt, scale_hs; cbn. split; ring. Qed.
+
+  (** p / p0 is invariant: surface pressure and p0 carry the same factor *)
+  Theorem hs_p_over_p0_invariant sigma ps :
+    kp <> 0 -> hp_p0 P <> 0 -> hs_p_over_p0 P' sigma (kp * ps) = hs_p_over_p0 P sigma ps.
+  Proof. intros H1 H2. unfold hs_p_over_p0, scale_hs; cbn. field. split; assumption. Qed.
+
+  Theorem hs_teq_homogeneous pk logp cl sl :
+    flt 0 kT ->
+    hs_teq_unbounded P' pk logp cl sl = kT * hs_teq_unbounded P pk logp cl sl /\
+    hs_teq P' pk logp cl sl = kT * hs_teq P pk logp cl sl.
+  Proof.
+    intros HT.
+    assert (A : hs_teq_unbounded P' pk logp cl sl = kT * hs_teq_unbounded P pk logp cl sl).
+    { unfold hs_teq_unbounded, scale_hs; cbn. ring. }
+    split; [exact A|]. unfold hs_teq. rewrite A. cbn [scale_hs hp_minT]. now apply fmax_scal_pos.
+  Qed.
+
+  (** nodal tendencies: Rayleigh friction on cos_lat_u (L/T^2) and Newtonian relaxation (Theta/T) *)
+  Theorem hs_nodal_tendencies_homogeneous kv cu cl kt tref tvar teq :
+    hs_nodal_velocity_tendency (kr * kv) (ku * cu) cl = kr * ku * hs_nodal_velocity_tendency kv cu cl /\
+    hs_nodal_temperature_tendency (kr * kt) (kT * tref) (kT * tvar) (kT * teq)
+      = kr * kT * hs_nodal_temperature_tendency kt tref tvar teq.
+  Proof.
+    unfold hs_nodal_velocity_tendency, hs_nodal_temperature_tendency. split.
+    - rewrite !(Fdiv_def field_c). ring.
+    - ring.
+  Qed.
+
+  (** whole nodal temperature forcing at one point, from invariant pk/logp *)
+  Theorem hs_temperature_forcing_homogeneous sigma cl sl pk logp tref tvar :
+    flt 0 kT ->
+    hs_nodal_temperature_tendency (hs_kt P' sigma cl) (kT * tref) (kT * tvar) (hs_teq P' pk logp cl sl)
+      = kr * kT * hs_nodal_temperature_tendency (hs_kt P sigma cl) tref tvar (hs_teq P pk logp cl sl).
+  Proof.
+    intros HT. rewrite (proj2 (hs_rates_homogeneous sigma cl)), (proj2 (hs_teq_homogeneous pk logp cl sl HT)).
+    exact (proj2 (hs_nodal_tendencies_homogeneous 0 0 cl _ _ _ _)).
+  Qed.
+End HeldSuarezCov.
